@@ -130,6 +130,12 @@ ChkEq(obs, exact, D) ==
   ELSE IF exact[2] > D THEN "skip"
   ELSE IF obs = exact THEN "ok" ELSE "fail"
 
+\* comparison of two quantities both derived from observations: judged only where
+\* the specification's own exact value g of that quantity is on the decoding lattice
+\* (an off-lattice truth may decode to a neighbouring lattice point)
+ChkEqG(obs, derived, g, D) ==
+  IF Bad(g) \/ g[2] > D THEN "skip" ELSE ChkEq(obs, derived, D)
+
 ChkBool(b) == IF b THEN "ok" ELSE "fail"
 \* three-valued: c is a Cmp result, allowed the set of accepted outcomes
 ChkCmp(c, allowed) == IF c = 2 THEN "skip" ELSE IF c \in allowed THEN "ok" ELSE "fail"
